@@ -320,9 +320,9 @@ class TCPPacketGenerator(Device, OutMixIn):
             self.dupack += 1
         else:
             # fast recovery
-            if self.dupack > 0:
+            if self.dupack >= 3:
                 self.congestion_control.dupack_over()
-                self.dupack = 0
+            self.dupack = 0
 
         if self.dupack == 3:
             self.congestion_control.consecutive_dupacks_received()
